@@ -455,7 +455,10 @@ fn run_check(
         "violations": total_violations,
     });
     // runs against a scratch tree (PSIM_REPO) never touch the committed evidence
-    let evdir = if repo_dir() == Path::new("/repo") {
+    let evdir = if let Ok(d) = std::env::var("PSIM_EVIDENCE_DIR") {
+        // exploratory runs (other seeds, frozen binaries) keep their evidence apart
+        PathBuf::from(d)
+    } else if repo_dir() == Path::new("/repo") {
         verif_dir().join("evidence")
     } else {
         target_dir().join("scratch-evidence")
@@ -478,8 +481,11 @@ fn run_check(
         known_hits.values().sum::<u64>(),
         wall
     );
-    for (k, n) in &kinds {
+    for (k, n) in kinds.iter().take(12) {
         println!("  {:5} x {}", n, k);
+    }
+    if kinds.len() > 12 {
+        println!("        ... and {} more violation classes", kinds.len() - 12);
     }
     if !harness.is_empty() {
         for h in harness.iter().take(5) {
